@@ -23,9 +23,10 @@ TRUSTED = [
     'CPython: sorted() stability, try/finally, generator-based context managers',
 ]
 ASSUMPTIONS = [
-    'one Parameterized instance, Integer parameters (equality = integer equality; the Comparator is modelled separately in C03), value watchers in args mode',
-    'Event parameters, slot (what != value) watchers, class-level watchers, async callbacks and Skip are outside the model',
-    'callback cascades are acyclic (a body assigns only parameters of lower index than those its watchers watch)',
+    'one Parameterized object (an instance or the class itself), Integer and Event parameters (equality = integer equality; the Comparator is modelled separately in C03); value watchers in args and kwargs mode, watchers of the Parameter attributes precedence/step',
+    'several objects at once (a callback assigning to another object), async callbacks, Skip, depends() and references are outside this model (C06-C10 have their own)',
+    'callback cascades are acyclic (a body assigns only parameters of lower index than those its watchers watch); callbacks may (un)register watchers, the watchers they register have empty callbacks',
+    'a Watcher object is identified by the order of its creation (uid): the model and the harness both count registrations',
 ]
 RULE = ('fault sequences: programs as for C03/C04 with raise statements and rejected values planted in callback bodies, update keys, '
         'context bodies at every nesting depth; every top-level statement runs under try/except and afterwards the dispatcher must be '
@@ -37,6 +38,7 @@ FAULTS = True
 
 run_impl = D.run_impl
 compare = D.compare
+crash_excused = D.crash_excused
 tags = D.tags
 nontrivial = D.nontrivial
 shrink = D.shrink
